@@ -233,10 +233,13 @@ CLAIMS["C06"] = {
             "non-bottom, there are no atoms iff the value is bottom, and merging the atoms into the default value gives back the original. "
             "MapUnion::atomize is checked MODULARLY against the Atomize contract of its value type: a havoc value lattice whose atom iterator "
             "yields its atoms in order and answers any size_hint the Iterator contract allows; for maps of <= 2 entries with <= 2 value atoms "
-            "each, the atoms are exactly {k: a} for every entry (k, v) and every atom a of v, in order.",
+            "each, the atoms are exactly {k: a} for every entry (k, v) and every atom a of v, in order. WithBot::atomize and WithTop::atomize are checked "
+            "the same way against the havoc inner lattice (<= 2 inner atoms, any legal size_hint): WithBot yields exactly the wrapped inner atoms (none "
+            "for None), WithTop the wrapped inner atoms for Some and the single atom None for top.",
     "note": "Box<dyn Iterator> + flat_map make whole-value harnesses very slow: WithBot<SetUnion>, MapUnion<_, SetUnion> and UnionFind atomize harnesses "
             "exceed 40 min of CBMC even for one-element operands; they are kept in the harness crate with a `deep_` prefix and are in NO tier, so "
-            "WithBot::atomize and UnionFind::atomize are NOT covered. std collections not covered.",
+            "UnionFind::atomize is NOT covered, and the wrappers / MapUnion are covered modularly only (the step from 'atoms are exactly the wrapped inner "
+            "atoms' to 'merging them back reproduces the value' uses the inner type's own Atomize contract and the merge contracts of C01/C04). std collections not covered.",
     "technique": "contract-based verification: Kani bounded harness contracts on the real Atomize impls; MapUnion against a havoc callee contract",
     "design": "DESIGN.md §5 C06, §13",
 }
